@@ -64,7 +64,15 @@ class _Str(Ty):
         return z3.StringSort()
 
 
-TInt, TBool, TReal, TStr = _Int(), _Bool(), _Real(), _Str()
+class _Char(Ty):
+    """one character, represented by its code point."""
+    name = 'Char'
+
+    def sort(self):
+        return z3.IntSort()
+
+
+TInt, TBool, TReal, TStr, TChar = _Int(), _Bool(), _Real(), _Str(), _Char()
 
 
 class TKey(Ty):
@@ -170,6 +178,23 @@ class TSeq(Ty):
         return z3.And(*parts)
 
 
+class _CStr(TSeq):
+    """a string that the verified code takes apart: a sequence of code points (len, Array Int Int)."""
+
+    def __init__(self):
+        TSeq.__init__(self, TChar)
+        self.name = 'CStr'
+
+    def lit(self, s):
+        arr = z3.K(z3.IntSort(), z3.IntVal(0))
+        for i, ch in enumerate(s):
+            arr = z3.Store(arr, i, ord(ch))
+        return self.mk(z3.IntVal(len(s)), arr)
+
+
+TCStr = _CStr()
+
+
 class TSet(Ty):
     def __init__(self, t):
         self.t = t
@@ -264,7 +289,7 @@ class TMap(Ty):
 def default_of(t):
     """an arbitrary but fixed element of the sort (used as filler of constant arrays)."""
     s = t.sort()
-    if isinstance(t, _Int):
+    if isinstance(t, (_Int, _Char)):
         return z3.IntVal(0)
     if isinstance(t, _Bool):
         return z3.BoolVal(False)
